@@ -90,4 +90,19 @@ TEXT.update({
            "DESIGN.md section 3 C05", "Names inside RDATA are abstracted by the Name::parse contract; two records per message (the section loop adds "
            "nothing per iteration beyond the cursor).", "MIR symbolic execution + z3 against an RFC 1035 envelope walker"),
 })
+TEXT.update({
+ "C07": _t("Symbolic execution of the real compressed serialisation MIR; an independent schema-aware walker (written from RFC 1035 4.1.4 and the "
+           "per-type RFCs) locates every name in the output and z3/the path condition decide: pointers are message-relative, strictly backwards, "
+           "<= 16383, land on a label start of an earlier name; must-not-compress RDATA names are in full; repeated names are 2-byte pointers; "
+           "writer offsets 2/5 give identical bytes; names beyond offset 16383 are never pointer targets.", "DESIGN.md section 3 C07",
+           "Scenario shapes are concrete; label contents, ids, TTLs and integer fields symbolic. The HashMap of name references is a model.",
+           "MIR symbolic execution + z3 with an independent pointer walker"),
+})
+TEXT.update({
+ "C16": _t("Symbolic execution of the real clone / into_owned / PartialEq / Hash MIR of records of every type: z3 is asked for field values on "
+           "which an owned copy differs field-wise, does not compare equal, serialises differently, or on which two equal records feed "
+           "different byte streams to a recording hasher.", "DESIGN.md section 3 C16",
+           "Hasher modelled as a recorder of the write stream; shapes concrete, contents symbolic.",
+           "MIR symbolic execution + z3 (owned-copy equality, eq => hash-stream equality)"),
+})
 NA_REASON = {}
